@@ -18,6 +18,7 @@ THEOREMS = [
     "BeyondVerif.C15.setForm_error_atomic",
     "BeyondVerif.C15.setFrame_unknown_atomic",
     "BeyondVerif.C15.setFrameBasic_error_atomic",
+    "BeyondVerif.C15.setFrameBasic_error_keeps_labels",
     "BeyondVerif.C15.covSetFrame_error_atomic",
     "BeyondVerif.C15.setFrame_error_cases",
     "BeyondVerif.C15.copy_receiver_unchanged",
@@ -29,6 +30,19 @@ THEOREMS = [
     "BeyondVerif.C15.copy_separate_depth1",
     "BeyondVerif.C15.copy_separate",
     "BeyondVerif.C15.copy_shares_only_maneuver_objects",
+    "BeyondVerif.C15.copyForm_separate",
+    "BeyondVerif.C15.copyFrame_separate",
+    "BeyondVerif.C15.mut_sep",
+    "BeyondVerif.C15.muts_sep",
+    "BeyondVerif.C15.copy_then_mutations_invisible",
+    "BeyondVerif.C15.asSV_then_mutations_invisible",
+    "BeyondVerif.C15.pickle_then_mutations_invisible",
+    "BeyondVerif.C15.ctor_separate",
+    "BeyondVerif.C15.attachCov_frame",
+    "BeyondVerif.C15.attachCov_result",
+    "BeyondVerif.C15.covFrom_frame",
+    "BeyondVerif.C15.getMans_creates_new",
+    "BeyondVerif.C15.getMans_existing",
     "BeyondVerif.C15.example_heap_wf",
     "BeyondVerif.C15.asOrbit_separate",
     "BeyondVerif.C15.asSV_separate",
@@ -37,9 +51,14 @@ THEOREMS = [
     "BeyondVerif.Heap.copyRef_ok",
     "BeyondVerif.Heap.copyRef_sep",
     "BeyondVerif.Heap.deepRef_ok",
+    "BeyondVerif.Heap.covSetFrame_sep",
+    "BeyondVerif.Heap.setFrameTo_sep",
     "BeyondVerif.C15W.copy_shares_maneuver_objects",
     "BeyondVerif.C15W.as_orbit_cov_separate",
     "BeyondVerif.C15W.pickle_gives_working_object",
+    "BeyondVerif.C15W.cov_from_cov_has_own_buffer",
+    "BeyondVerif.C15W.lazily_created_maneuver_list_not_shared",
+    "BeyondVerif.C15W.failed_frame_change_from_keplerian",
 ]
 LEVEL_TEXT = ("Lean theorems over an object-graph (heap) model of StateVector/Orbit/Cov: for every heap and receiver, copy(), copy(form=..), copy(frame=..), as_orbit, "
               "as_statevector and a pickle round trip write no pre-existing cell (receiver unchanged, also when the conversion fails); in every well-formed heap a cell "
@@ -1227,7 +1246,7 @@ def extract(ctx):
 # ---------------------------------------------------------------- correspondence: real objects vs the heap model
 
 STR_TOK = {"sat": 1, "a": 2, "b": 3, "x": 6}
-ERR_KINDS = [("UnknownFormError", "unknown-form"), ("UnknownFrameError", "unknown-frame"), ("EopError", "eop"), ("RuntimeError", "runtime"),
+ERR_KINDS = [("UnknownFormError", "unknown-form"), ("UnknownFrameError", "unknown-frame"), ("EopError", "eop"), ("IndexError", "index"), ("RuntimeError", "runtime"),
              ("ValueError", "value"), ("TypeError", "type"), ("AttributeError", "attr"), ("KeyError", "attr")]
 
 
@@ -1402,8 +1421,6 @@ class Real:
                 if back:
                     return back
                 root = mem_root(x)
-                if ("covmem", id(root)) in seen:
-                    problems.append("a state vector lives in the memory of a covariance")
                 bi, bback = ident(("mem", id(root)), root)
                 if bback:
                     sb = bback
@@ -1420,17 +1437,22 @@ class Real:
                     vals.append(np.asarray(x).tobytes())
                     return f"C{i}(!,<$>)"
                 root = mem_root(x)
-                for key, part in ((("covmem", id(root)), root), (("covpart", id(dd)), dd), (("covpart", id(x.__dict__)), x.__dict__)):
-                    if key in seen or ("mem", key[1]) in seen or id(part) in seen:
-                        problems.append("a covariance shares its buffer / dict with another object")
+                bi, bback = ident(("mem", id(root)), root)      # the 6x6 buffer: a cell of its own, numbered like every other
+                if bback:
+                    sb = bback
+                else:
+                    sb = f"B{bi}=<$>"
+                    vals.append(np.asarray(x).tobytes())
+                for key, part in ((("covpart", id(dd)), dd), (("covpart", id(x.__dict__)), x.__dict__)):
+                    if key in seen or id(part) in seen:
+                        problems.append("a covariance shares its _data / __dict__ with another object")
                     seen[key] = -1
                     keep.append(part)
-                vals.append(np.asarray(x).tobytes())
                 fr = dd["frame"]
                 of = x.__dict__.get("_orb_frame")
                 frs = fr if isinstance(fr, str) else frame_str(fr)
                 ofs = frame_str(of)
-                return f"C{i}(<$>,{frs},{ofs},{ref(dd['orb'])})"
+                return f"C{i}({sb},{frs},{ofs},{ref(dd['orb'])})"
             if isinstance(x, Man):
                 i, back = ident(id(x), x)
                 return back or f"M{i}={x.comment[1:]}"
@@ -1606,7 +1628,10 @@ def rand_ops(rng, maxlen=6):
         elif name == "ctor":
             op = [name, i, str(int(rng.random() < 0.4))]
         elif name == "setfrx":
-            op = [name, i, rng.choice(FRAMES), rng.choice(["iso", "eop"])]
+            # under the 'error' policy only the rotations that need the time-scale offsets of the date raise; every path to
+            # (or from) EME2000 does, so the EOP failure is asked for with that target (from EME2000 itself: nothing to do)
+            mode = rng.choice(["iso", "eop"])
+            op = [name, i, rng.choice(FRAMES) if mode == "iso" else "EME2000", mode]
         elif name == "seta":
             op = [name, i, rng.choice(SET_NAMES), str(rng.randrange(10, 90))]
         elif name == "seti":
